@@ -973,8 +973,34 @@ def intersect_eval(c):
     return bad
 
 
+def _closed_form_line(sh, P, S):
+    """driver request for the closed-form ray/conic intersection (theorem conic_closed_form_hit) of the ray (P, S) with a plane, a
+    conic or an off-axis conic (= the parent conic at shifted coordinates): the origin is first moved along the ray to the vertex
+    plane (any point of the ray will do for the theorem; this one keeps C small for origins 1e9 or 1e99 away) and the direction is
+    taken towards +z (the same line), so that the model's root `C / (sqrt(B^2 - AC) - B)` is the one next to the vertex.
+    -> (line, shift) or None"""
+    P, S = np.asarray(P, dtype=float), np.asarray(S, dtype=float)
+    if sh[0] == 'plane':
+        c_, k_, shift = 0.0, 0.0, np.zeros(3)
+    elif sh[0] == 'conic':
+        c_, k_, shift = float(sh[1]), float(sh[2]), np.zeros(3)
+    elif sh[0] == 'sphere':
+        c_, k_, shift = float(sh[1]), 0.0, np.zeros(3)
+    elif sh[0] in ('offaxis', 'off_axis', 'offAxis') and len(sh) >= 5:
+        c_, k_, shift = float(sh[1]), float(sh[2]), np.array([float(sh[3]), float(sh[4]), 0.0])
+    else:
+        return None
+    if S[2] == 0 or not np.isfinite(P).all():
+        return None
+    P1 = P + (-P[2] / S[2]) * S
+    P1[2] = 0.0
+    Sd = S if S[2] > 0 else -S
+    return ' '.join(['hit', C.f2w(c_), C.f2w(k_)] + [C.f2w(v) for v in (P1 + shift)] + [C.f2w(v) for v in Sd]), shift
+
+
 def _intersect_stream(ctx):
     rng = ctx.rng
+    cf_lines, cf_jobs = [], []
     for i in range(ctx.scale(60, 800)):
         a = float(rng.choice([2.0, 5.0, 12.5]))
         sh = _rand_shape(rng, a)
@@ -992,6 +1018,32 @@ def _intersect_stream(ctx):
             bad = [f'intersect raised {type(ex).__name__}: {ex}']
         for b in bad[:1]:
             ctx.pred_fail('intersect', c, b)
+        cf = _closed_form_line(sh, c['P'], c['S'])
+        if cf is not None and not bad:
+            cf_lines.append(cf[0])
+            cf_jobs.append((c, cf[1]))
+    # Newton's answer against the PROVED closed form (planes, conics, off-axis conics): same point of the surface, not merely a point
+    # of the surface -- the root next to the vertex
+    if cf_lines:
+        sf, sm, co = _impl()
+        for (c, shift), reply in zip(cf_jobs, C.lean_driver('C19', cf_lines)):
+            tok = reply.split()
+            if len(tok) != 4:
+                continue
+            hit = np.array([C.w2f(v) for v in tok[1:]]) - shift
+            surf = build_surface({'kind': 'refl', 'P': [0.0, 0.0, 0.0], 'R': None, 'shape': tuple(c['shape'])})
+            kw = {'eps': c['eps']} if c.get('eps') is not None else {}
+            with np.errstate(all='ignore'):
+                Pj, _ = sm.intersect(np.array([c['P']], dtype=float), np.array([c['S']], dtype=float), surf.sag_normal, c.get('s1', 0), **kw)
+            X = np.asarray(Pj)[0]
+            cc = {**c, 'closed_form': True}
+            ctx.case('intersect_closed_form', cc, nontrivial=c['shape'][0] != 'plane', tag=str(c['shape'][0]))
+            if not np.isfinite(hit).all():
+                ctx.hist['intersect_closed_form:model-nan'] += 1
+                continue
+            scale = max(1.0, float(np.abs(hit).max()))
+            if np.abs(X - hit).max() > max(1e-9, 40 * (c.get('eps') or 0.0)) * scale:
+                ctx.disagree('intersect_closed_form', cc, X.tolist(), hit.tolist())
 
 
 def history_eval(c):
